@@ -909,6 +909,11 @@ def build(kind, src, R, c):
             pr["radii"][1] = pr["radii"][0]
         if r.random() < 0.08:
             pr["radii"][2] = pr["radii"][0]
+        if (not src.lat) and r.random() < 0.25:
+            # the corners of the size domain: needles and pancakes with aspect ratios of several hundred
+            big, small = r.uniform(60.0, 100.0), r.uniform(0.2, 0.35)
+            pr["radii"] = np.array(r.choice([[big, small, small], [small, big, small], [small, small, big],
+                                             [big, big, small], [small, big, big]]))
     elif kind == "cylinder":
         pr["r"] = src.size()
         pr["h"] = 0.5 * src.size()
